@@ -30,21 +30,30 @@ def check_init(prog, an, rep, cn, f, kname, inert_fields):
             rep.ok("C16.R2", inst, csite(esite), "exit carries %s: nothing allocated is live" % fact_str(failed[0], s.addr_reg, prog), cfg=cn)
         else:
             rep.violation("C16.R2", inst, csite(esite), "init returns 0 on a path where its allocation may have succeeded (block leaked or object half-built)", cfg=cn)
-        # R1
+        # R1: the field every entry point tests FIRST must be NULL; a later-tested field (ctx behind the
+        # vtable dispatch) only counts when the first one definitely holds a real table
         hit = None
-        for fld in inert_fields:
+
+        def val(fld):
             t = state_term(prog, f, 0, fld)
             if t is None:
-                continue
+                return None
             ent = st.must.get((t[1], t[2]))
-            if ent is not None and ent[1] in (("null",), ("c", 0)):
-                hit = fld
+            return ent[1] if ent is not None else None
+        first = inert_fields[0]
+        v0 = val(first)
+        if v0 in (("null",), ("c", 0)):
+            hit = first
+        elif len(inert_fields) > 1 and v0 is not None and v0[0] == "p" and v0[1][0][0] == "global":
+            v1 = val(inert_fields[1])
+            if v1 in (("null",), ("c", 0)):
+                hit = "%s (behind a valid %s)" % (inert_fields[1], first)
         if hit:
             rep.ok("C16.R1", inst, csite(esite), "obj->%s := NULL definitely stored before returning 0" % hit, cfg=cn)
         else:
             have = sorted("%s := %s" % (addr_str(l.addr, prog), term_str(t, s.addr_reg, prog)) for k, (l, t) in st.must.items() if l.addr.root == ("arg", 0))
             rep.violation("C16.R1", cons, csite(esite),
-                          "allocation failure leaves the caller's object as found (must-stores on this exit: %s): a later cleanup/use acts on garbage ctx" % (have or "none"),
+                          "allocation failure leaves the caller's object as found (must-stores on this exit: %s): a later cleanup or use dispatches on / frees whatever the object held" % (have or "none"),
                           have, cfg=cn)
     return nexits
 
@@ -61,13 +70,14 @@ def run_config(ctx, rep, cfg):
         n += 1
         s = an.summaries[f.key]
         ht = handle_type(f)
-        # fields whose NULL makes every other entry point on this handle type refuse
-        others = [c2 for n2, f2, c2, d2 in public_functions(ctx, prog) if handle_type(f2, [k for k, p in enumerate(d2["params"]) if p["name"] in ("ctr", "ecb")][0] if any(p["name"] in ("ctr", "ecb") for p in d2["params"]) else 0) == ht and c2["kind"] != "init"]
-        common = None
-        for c2 in others:
-            stt = set(c2["state"]) | ({"ctx"} if c2["kind"] == "cleanup" else set())   # back-end cleanups test ctx (C15.R5)
-            common = stt if common is None else (common & stt)
-        inert = sorted(common or {"ctx"})
+        # order in which the other entry points on this handle type test the object's fields:
+        # CTR objects dispatch through vtable first (then the back end tests ctx); parallel objects test ctx
+        kinds = [c2 for n2, f2, c2, d2 in public_functions(ctx, prog) if c2["kind"] != "init" and
+                 any(handle_type(f2, k) == ht for k in range(len(f2.params)))]
+        if kinds and all("vtable" in c2["state"] for c2 in kinds):
+            inert = ["vtable", "ctx"]
+        else:
+            inert = ["ctx"]
         nex += check_init(prog, an, rep, cn, f, name, inert)
         bad = [r for r in s.retconsts if r not in (0, 1)]
         if bad:
